@@ -60,6 +60,8 @@ def resolve_lines(ns):
     lab = {}
     for i, line in enumerate(src):
         t = line.strip()
+        if t.startswith("except Exception"):     # (the error path re-takes the lock only to count the message as handled)
+            break
         if "self._write_buffer +=" in t and "as_bytes" in t:
             lab[first + i] = "wrd"
         elif t.startswith("with self.write_lock"):
